@@ -702,7 +702,8 @@ impl Driver {
             while (t0.elapsed().as_micros() as u64) < delay_us {
                 std::hint::spin_loop();
             }
-            ctx.record("Sig_Send", "drv", -1, 0, &kind);
+            ctx.record("Sig_Send", "drv", -1, 0, "async");
+            let _ = &kind;
             f();
             f // keep the sender alive
         }));
@@ -727,6 +728,10 @@ impl Driver {
             e.ev == name && (c < 0 || e.c == c || (e.ev == "Accept_Return" && ports.get(&(e.v as u16)) == Some(&c)))
         });
         if r.is_none() {
+            if name == "H_Read" || name == "H_Finish" {
+                // an awaited service did not happen: a fact for the log (the judge decides what it means)
+                self.ctx.record("Await_Failed", &th_cli(c), c, 0, name);
+            }
             self.problems.push(format!("expected event {}({}) did not happen", name, c));
             if class_of(name) != "drv" {
                 self.hang = true;
@@ -1120,7 +1125,11 @@ pub fn race_scenarios(rt: &str) -> Vec<Cfg> {
         ]));
     }
     // scale: 3 x pool + 2 connections that all stay open (pool fully occupied, 2 x pool + 2 jobs waiting), up to 48
+    let big = std::env::args().nth(2).as_deref() == Some("thorough");
     for (nw, total) in [(1usize, 5usize), (2, 8), (4, 14), (8, 26), (8, 48)] {
+        if total >= 26 && !big {
+            continue; // quick tier: pools 1, 2, 4 with 3 x pool + 2 connections; the matrix goes up to 48
+        }
         let mut steps = vec![];
         for c in 1..=(total as i64) {
             steps.push(json!(["connect", c]));
@@ -1418,6 +1427,7 @@ where
             std::process::exit(2);
         }
     }
+    let mut slow = 0;
     for (i, cfg) in scenarios.into_iter().enumerate() {
         if i < skip {
             continue;
@@ -1428,7 +1438,7 @@ where
             c2.id = format!("{}-restart", cfg.id);
             c2.restart = false;
             c2.nc = 2;
-            c2.steps = vec![json!(["connect", 1]), json!(["half", 1, "s"]), json!(["rest", 1, "keep"]), json!(["recv", 1]),
+            c2.steps = vec![json!(["connect", 1]), json!(["half", 1, "s"]), json!(["rest", 1, "keep"]), json!(["recv", 1]), json!(["close", 1]),
                             json!(["connect", 2]), json!(["half", 2, "l"]), json!(["rest", 2, "close"]), json!(["await", 2, "H_Read"])];
             Some(c2)
         } else {
@@ -1446,6 +1456,14 @@ where
         if hang {
             // a stuck server thread cannot be removed from this process: the driver restarts us after this scenario
             std::process::exit(3);
+        }
+        if out["verdict"]["wait_level"].as_u64().unwrap_or(0) >= WAITS_MS.len() as u64 {
+            slow += 1;
+            if slow >= 3 {
+                // three scenarios each waited out 1 s + 4 s + 15 s for something that never came: the tree is
+                // broken, the rest of the group would only cost time
+                std::process::exit(4);
+            }
         }
     }
 }
